@@ -6,22 +6,33 @@ package outbounds
 // outbounds (each allows or refuses everything, consistently in UDP() and CheckUDP()) is wrapped in
 // PluggableOutboundAdapter; for every address string CheckUDP(addr)==nil must hold exactly when
 // UDP(addr) succeeds, and both must have been routed to the same outbound with the same rewritten
-// address (hijack).  This ties the hypothesis of the C08 theorems - the dial vets the first
-// destination with the policy CheckUDP applies to the later ones - to the real ACL engine.
+// address (hijack) AND the same resolve info.  This ties the hypothesis of the C08 theorems - the dial
+// vets the first destination with the policy CheckUDP applies to the later ones - to the real ACL engine.
+//
+// Pipeline class "resolve" (the deployed shape: resolver -> ACL -> outbound): a static-table resolver
+// stage (same shape as systemResolver/standardResolver: fills AddrEx.ResolveInfo, IP literals through
+// tryParseIP) sits in front of the engine, destinations are host NAMES that resolve (v4, v6, both,
+// neither) into or next to the CIDR / IP rules.  The case may carry the generator's own first-match
+// evaluation of every address (expect: 1 allowed, 0 refused, -1 not evaluated): both CheckUDP and UDP
+// must agree with it, so a change that breaks both entry points alike is seen too.
 
 import (
 	"encoding/json"
 	"errors"
 	"fmt"
 	"net"
+	"strings"
 	"testing"
 )
 
 type c08aclCase struct {
-	Rules string   `json:"rules"`
-	Obs   []string `json:"obs"`   // outbound names, in order (first = default)
-	Allow []bool   `json:"allow"` // does outbound i accept
-	Addrs []string `json:"addrs"`
+	Rules   string               `json:"rules"`
+	Obs     []string             `json:"obs"`     // outbound names, in order (first = default)
+	Allow   []bool               `json:"allow"`   // does outbound i accept
+	Addrs   []string             `json:"addrs"`
+	Resolve map[string][2]string `json:"resolve"` // nil: no resolver stage; host -> [v4 text or "", v6 text or ""], absent host = lookup error
+	Expect  []int                `json:"expect"`  // per address, optional
+	Order   []int                `json:"order"`   // per address, optional: 0 CheckUDP,UDP  1 UDP,CheckUDP  2 CheckUDP,CheckUDP,UDP  3 UDP,CheckUDP,CheckUDP
 }
 
 type c08aclOb struct {
@@ -30,16 +41,31 @@ type c08aclOb struct {
 	log   *[]string
 }
 
-var errC08Refused = errors.New("refused")
+var (
+	errC08Refused  = errors.New("refused")
+	errC08NoSuchHost = errors.New("no such host")
+)
+
+func c08aclShow(a *AddrEx) string {
+	s := a.String()
+	if a.ResolveInfo == nil {
+		return s + "|nil"
+	}
+	e := ""
+	if a.ResolveInfo.Err != nil {
+		e = "err"
+	}
+	return s + "|" + a.ResolveInfo.IPv4.String() + "|" + a.ResolveInfo.IPv6.String() + "|" + e
+}
 
 type c08aclConn struct{}
 
-func (c08aclConn) ReadFrom(b []byte) (int, *AddrEx, error)     { return 0, nil, errC08Refused }
-func (c08aclConn) WriteTo(b []byte, a *AddrEx) (int, error)    { return len(b), nil }
-func (c08aclConn) Close() error                                { return nil }
-func (o *c08aclOb) TCP(reqAddr *AddrEx) (net.Conn, error)      { return nil, errC08Refused }
+func (c08aclConn) ReadFrom(b []byte) (int, *AddrEx, error)  { return 0, nil, errC08Refused }
+func (c08aclConn) WriteTo(b []byte, a *AddrEx) (int, error) { return len(b), nil }
+func (c08aclConn) Close() error                             { return nil }
+func (o *c08aclOb) TCP(reqAddr *AddrEx) (net.Conn, error)   { return nil, errC08Refused }
 func (o *c08aclOb) UDP(reqAddr *AddrEx) (UDPConn, error) {
-	*o.log = append(*o.log, "udp:"+o.name+":"+reqAddr.String())
+	*o.log = append(*o.log, "udp:"+o.name+":"+c08aclShow(reqAddr))
 	if o.allow {
 		return c08aclConn{}, nil
 	}
@@ -47,11 +73,51 @@ func (o *c08aclOb) UDP(reqAddr *AddrEx) (UDPConn, error) {
 }
 
 func (o *c08aclOb) CheckUDP(reqAddr *AddrEx) error {
-	*o.log = append(*o.log, "chk:"+o.name+":"+reqAddr.String())
+	*o.log = append(*o.log, "chk:"+o.name+":"+c08aclShow(reqAddr))
 	if o.allow {
 		return nil
 	}
 	return errC08Refused
+}
+
+// c08aclResolver: the resolver stage with a static table
+type c08aclResolver struct {
+	table map[string][2]string
+	Next  PluggableOutbound
+}
+
+func (r *c08aclResolver) resolve(reqAddr *AddrEx) {
+	if tryParseIP(reqAddr) {
+		return
+	}
+	e, ok := r.table[reqAddr.Host]
+	if !ok {
+		reqAddr.ResolveInfo = &ResolveInfo{Err: errC08NoSuchHost}
+		return
+	}
+	info := &ResolveInfo{}
+	if e[0] != "" {
+		info.IPv4 = net.ParseIP(e[0])
+	}
+	if e[1] != "" {
+		info.IPv6 = net.ParseIP(e[1])
+	}
+	reqAddr.ResolveInfo = info
+}
+
+func (r *c08aclResolver) TCP(reqAddr *AddrEx) (net.Conn, error) {
+	r.resolve(reqAddr)
+	return r.Next.TCP(reqAddr)
+}
+
+func (r *c08aclResolver) UDP(reqAddr *AddrEx) (UDPConn, error) {
+	r.resolve(reqAddr)
+	return r.Next.UDP(reqAddr)
+}
+
+func (r *c08aclResolver) CheckUDP(reqAddr *AddrEx) error {
+	r.resolve(reqAddr)
+	return r.Next.CheckUDP(reqAddr)
 }
 
 func TestVerifC08ACL(t *testing.T) {
@@ -73,18 +139,59 @@ func TestVerifC08ACL(t *testing.T) {
 			res["ok"] = true
 			res["why"] = ""
 			res["compile_error"] = err.Error()
+			if c.Resolve != nil {
+				// the resolver class is generated from a grammar every rule of which compiles
+				res["ok"] = false
+				res["why"] = "generated rule set does not compile: " + err.Error()
+			}
 			out.Emit(res)
 			continue
 		}
-		ad := &PluggableOutboundAdapter{PluggableOutbound: eng}
+		var pipeline PluggableOutbound = eng
+		if c.Resolve != nil {
+			pipeline = &c08aclResolver{table: c.Resolve, Next: eng}
+		}
+		ad := &PluggableOutboundAdapter{PluggableOutbound: pipeline}
 		ok, why := true, ""
 		verd := make([]int, 0, len(c.Addrs))
-		for _, a := range c.Addrs {
+		routes := make([][2]int, 0, len(c.Addrs)) // outbound (1-based index into obs) reached by CheckUDP / by UDP; 0: none of the fakes
+		obIdx := map[string]int{}
+		for j, n := range c.Obs {
+			obIdx[n] = j + 1
+		}
+		for k, a := range c.Addrs {
 			log = log[:0]
+			order := 0
+			if k < len(c.Order) {
+				order = c.Order[k]
+			}
 			var cerr, uerr error
+			nchk := 1
 			p, msg := vCatch(func() {
-				cerr = ad.CheckUDP(a)
-				_, uerr = ad.UDP(a)
+				switch order {
+				case 1:
+					_, uerr = ad.UDP(a)
+					cerr = ad.CheckUDP(a)
+				case 2:
+					cerr = ad.CheckUDP(a)
+					c2 := ad.CheckUDP(a)
+					nchk = 2
+					if (cerr == nil) != (c2 == nil) && ok {
+						ok, why = false, fmt.Sprintf("CheckUDP(%q) says %v, asked again it says %v", a, cerr, c2)
+					}
+					_, uerr = ad.UDP(a)
+				case 3:
+					_, uerr = ad.UDP(a)
+					cerr = ad.CheckUDP(a)
+					c2 := ad.CheckUDP(a)
+					nchk = 2
+					if (cerr == nil) != (c2 == nil) && ok {
+						ok, why = false, fmt.Sprintf("CheckUDP(%q) says %v, asked again it says %v", a, cerr, c2)
+					}
+				default:
+					cerr = ad.CheckUDP(a)
+					_, uerr = ad.UDP(a)
+				}
 			})
 			if p {
 				ok, why = false, "panic: "+msg
@@ -98,18 +205,41 @@ func TestVerifC08ACL(t *testing.T) {
 				v |= 2
 			}
 			verd = append(verd, v)
-			if (cerr == nil) != (uerr == nil) && ok {
-				ok, why = false, fmt.Sprintf("CheckUDP(%q) says %v but UDP(%q) says %v", a, cerr, a, uerr)
-			}
-			if len(log) == 2 && ok {
-				if log[0][4:] != log[1][4:] {
-					ok, why = false, fmt.Sprintf("CheckUDP and UDP of %q were routed differently: %s vs %s", a, log[0], log[1])
+			rt := [2]int{}
+			for _, l := range log {
+				f := strings.SplitN(l, ":", 3)
+				if f[0] == "chk" && rt[0] == 0 {
+					rt[0] = obIdx[f[1]]
 				}
-			} else if len(log) == 1 && ok {
-				ok, why = false, fmt.Sprintf("only one of CheckUDP/UDP reached an outbound for %q: %v", a, log)
+				if f[0] == "udp" && rt[1] == 0 {
+					rt[1] = obIdx[f[1]]
+				}
+			}
+			routes = append(routes, rt)
+			if (cerr == nil) != (uerr == nil) && ok {
+				ok, why = false, fmt.Sprintf("CheckUDP(%q) says %v but UDP(%q) says %v (the dial-time policy and the per-datagram policy differ)", a, cerr, a, uerr)
+			}
+			if k < len(c.Expect) && c.Expect[k] >= 0 && ok {
+				want := c.Expect[k] == 1
+				if (uerr == nil) != want {
+					ok, why = false, fmt.Sprintf("UDP(%q) says %v, first-match evaluation of the rules says allowed=%v", a, uerr, want)
+				} else if (cerr == nil) != want {
+					ok, why = false, fmt.Sprintf("CheckUDP(%q) says %v, first-match evaluation of the rules says allowed=%v", a, cerr, want)
+				}
+			}
+			if len(log) == 1+nchk && ok {
+				for _, l := range log[1:] {
+					if l[4:] != log[0][4:] {
+						ok, why = false, fmt.Sprintf("CheckUDP and UDP of %q were routed differently: %s", a, strings.Join(log, " vs "))
+						break
+					}
+				}
+			} else if len(log) != 0 && ok {
+				ok, why = false, fmt.Sprintf("only some of the CheckUDP/UDP calls reached an outbound for %q: %v", a, log)
 			}
 		}
 		res["verdicts"] = verd
+		res["routes"] = routes
 		res["ok"] = ok
 		res["why"] = why
 		out.Emit(res)
